@@ -23,7 +23,7 @@ FLOORS = {
                  'properties_judged': 50000, 'reference_nodes_resolved': 1000000, 'schema_checks_passed': 50000,
                  'sibling_reuse_cases': 2500},
 }
-BUDGET = {'quick': {'preds': 20000, 'props': 6000}, 'thorough': {'preds': 200000, 'props': 60000}}
+BUDGET = {'quick': {'preds': 20000, 'props': 6000}, 'thorough': {'preds': 1500000, 'props': 400000}}
 TIMEOUT = {'quick': 900, 'thorough': 7200}
 
 
